@@ -3,6 +3,9 @@ from contracts import c15_dictlist, misc_small, c02_xref, c02_rename, c02_bounda
 from contracts import c02_update_genes as U
 from contracts import c02_add_metabolites as AM
 from contracts import c02_remove_reactions as RR
+from contracts import c02_groups as GR
+from contracts import c02_remove_metabolites as RM
+from contracts import c02_rxn_add_metabolites as RAM
 from props._generic import run_property, replay_with_driver
 
 LEVEL = "other"
@@ -24,8 +27,9 @@ KEYS_RR = ["Model.remove_reactions"]
 
 def run(rep):
     run_property(rep, KEYS, more=[(RENAME_KEYS, c02_rename.HOOKS), (BOUNDARY_KEYS, c02_boundary.HOOKS), (KEYS_UG, U.HOOKS), (KEYS_AM, AM.HOOKS),
-                                   (KEYS_RR, RR.HOOKS)],
-                 lemmas=U.lemmas, explanation=(
+                                   (KEYS_RR, RR.HOOKS), (GR.KEYS, GR.HOOKS), (RM.KEYS, RM.HOOKS), (RAM.KEYS, RAM.HOOKS),
+                                   (RAM.KEYS_SUB, RAM.HOOKS_SUB)],
+                 lemmas=lambda: U.lemmas() + RAM.lemmas(), explanation=(
         "Deductive part: the clauses `identifiers are unique` and `every listed object is the one found by looking up its "
         "identifier` hold because every model edit changes model.reactions/metabolites/genes/groups only through the DictList "
         "operations listed here, each proved (C15 contracts, unbounded) to preserve the representation invariant and to produce "
@@ -94,9 +98,38 @@ def run(rep):
         "listed twice only produces a warning: not covered); Model.remove_metabolites(one reaction-less metabolite) is an abstract "
         "call assumed to clear its model pointer and its group memberships. Observation visible in that contract (not demanded by "
         "the property text, hence not a finding): an orphaned gene removed from model.genes keeps its _model pointer. "
+        "Model.remove_metabolites (no context open; a list or one metabolite; keeping the reactions or destructive): "
+        "model.metabolites loses exactly the listed members (well formed again, order kept), each gets no model pointer, exactly one "
+        "remove_cons_vars call with exactly their mass-balance constraints, no group of the model contains one of them afterwards "
+        "and nothing else leaves or joins a group; non-destructive: every reaction that listed a removed metabolite x is sent "
+        "subtract_metabolites({x: its coefficient}) (assumed effect of that callee: x leaves the reaction, the reaction leaves "
+        "x._reaction), nothing else changes; destructive: remove_from_model() exactly once for every reaction that listed a removed "
+        "metabolite and for nothing else. Model.remove_groups (Group objects or identifier strings, list or single, without and with "
+        "a context): exactly the model's groups registered under a listed identifier leave model.groups (well formed again, order "
+        "kept), their model pointer is cleared, member sets untouched, an unknown or repeated item changes nothing; in a context "
+        "exactly partial(groups.add, g) then partial(setattr, g, '_model', model) per removed group. Model.add_groups (list or one "
+        "Group, without and with a context): groups whose identifier is present are ignored, the joining ones form the new tail of "
+        "model.groups (well formed) and point at the model, two joining groups with one identifier raise ValueError with nothing "
+        "changed, each member that is a Metabolite / Reaction whose identifier was not in the model when examined is handed to "
+        "add_metabolites([m]) / add_reactions([m]) (abstract calls) and nothing else; in a context exactly the two undo "
+        "registrations per joining group. "
+        "Reaction.add_metabolites - the function through which every stoichiometry edit goes - is proved for dictionaries of any "
+        "size, combine and replace, object keys and identifier keys, reaction in a model (without / with context, also keys that are "
+        "NEW metabolites when no context is open) and model-less: with final(m) = old + given (combine, m was a key) or given "
+        "(replace, or m was not a key), m is a key afterwards exactly when it was touched and final(m) != 0, and then holds final(m); "
+        "for every touched m `reaction in m._reaction` holds afterwards exactly when m is a key; nothing else changes; the solver "
+        "row of every touched m holds final(m) for the forward and -final(m) for the reverse variable (0 for a removed one) and no "
+        "other cell is written (C01); an unknown identifier raises KeyError (model-less: ValueError) BEFORE anything changed; "
+        "without a context or with reversibly=False nothing is registered, otherwise exactly one undo: combine - "
+        "subtract_metabolites(copy of the argument as at entry, combine=True, reversibly=False), replace - add_metabolites({key: "
+        "old coefficient or 0}, combine=False, reversibly=False); Reaction.subtract_metabolites makes exactly one add_metabolites "
+        "call with a new dictionary of the negated values and the same flags; glue lemmas: xref-preserved, rows-preserved, "
+        "undo-restores:combine / :replace (the call followed by its registered undo call restores stoichiometry, reaction sets "
+        "and solver rows). Not covered there: keys that belong to another model (copied), new metabolites inside a context, another "
+        "object with the same identifier on a model-less reaction. "
         "The documented effect of each other public "
-        "editing operation on stoichiometry, gene sets, back-references and groups (add_reactions re-pointing, Reaction.add_metabolites "
-        "combine/replace, remove_genes/rename_genes, merge), the parsing of the rule text and what the "
+        "editing operation on stoichiometry, gene sets, back-references and groups (add_reactions re-pointing, "
+        "remove_genes/rename_genes, merge), the parsing of the rule text and what the "
         "registered undo functions do when they run are NOT "
         "proved - those functions mix sympy/optlang calls, string parsing and nested loops outside the supported subset: bounded "
         "driver (histories compared step by step with an executable reference description + Inv_XRef after every step)."),
@@ -111,7 +144,16 @@ def run(rep):
                  "axiomatised", "Model.add_cons_vars as a recorded call; optlang Constraint constructor uninterpreted",
                  "remove_reactions: objective.set_linear_coefficients / Model.remove_cons_vars recorded, not executed; "
                  "Model.remove_metabolites(one reaction-less metabolite) abstract with an assumed effect (model pointer None, removed "
-                 "from the model's groups, nothing else in view); len(set) == 0 iff the set is empty"])
+                 "from the model's groups, nothing else in view); len(set) == 0 iff the set is empty",
+                 "remove_metabolites: Reaction.subtract_metabolites({x: c}) (coefficient old - c, at 0 x leaves the reaction and the "
+                 "reaction leaves x._reaction) and Reaction.remove_from_model() (model pointer None, leaves every reaction set) by "
+                 "assumed effect; solver.constraints[id] total (solver in step)",
+                 "add_groups: Model.add_metabolites([m]) / add_reactions([m]) recorded abstract calls that may change only "
+                 "model.metabolites / model.reactions (well formed again) and model pointers of non-Group objects; isinstance of a "
+                 "member an uninterpreted class tag",
+                 "Reaction.add_metabolites: model.constraints[name] / constraint.set_linear_coefficients as a ghost matrix (assumed "
+                 "optlang contracts); Model.add_metabolites applied at the call site by its proved contract plus: does not raise for "
+                 "pairwise different new identifiers (obliged), add_cons_vars makes the constraints findable by name"])
 
 
 def replay(payload):
